@@ -545,12 +545,33 @@ class TLSRecordLayer(object):
                     self._shutdown(True)
                 else:
                     while not alert:
-                        for result in self._getMsg((ContentType.alert, \
-                                                  ContentType.application_data)):
+                        if self.version > (3, 3):
+                            # NewSessionTicket and KeyUpdate messages may
+                            # still be in flight in TLS 1.3
+                            msg_gen = self._getMsg(
+                                (ContentType.alert,
+                                 ContentType.application_data,
+                                 ContentType.handshake),
+                                (HandshakeType.new_session_ticket,
+                                 HandshakeType.key_update))
+                        else:
+                            msg_gen = self._getMsg(
+                                (ContentType.alert,
+                                 ContentType.application_data))
+                        for result in msg_gen:
                             if result in (0,1):
                                 yield result
                         if result.contentType == ContentType.alert:
                             alert = result
+                        elif isinstance(result, KeyUpdate):
+                            # keep the read keys in step; nothing may be
+                            # sent after our close_notify
+                            self.session.cl_app_secret, \
+                                self.session.sr_app_secret = \
+                                self._recordLayer.calcTLS1_3KeyUpdate_sender(
+                                    self.session.cipherSuite,
+                                    self.session.cl_app_secret,
+                                    self.session.sr_app_secret)
                     if alert.description == AlertDescription.close_notify:
                         self._shutdown(True)
                     else:
